@@ -26,12 +26,21 @@ LEVEL_TEXT = ("Theorems (Props/C05.v) for ALL shapes >= 2 and all configurations
               "runs along a two-cell direction; directions advance cyclically once per cycle, also across the "
               "calls of multigrid used as preconditioner (flag read off solver.py: the hand-over precedes the "
               "termination test; otherwise refuted). The integer decision helpers are regenerated from solver.py "
-              "on every run.")
+              "on every run. What the visited levels DO (Model/MGSem.v: the event list run as a stack machine over "
+              "(efield, sfield) frames with the four numerical operations as parameters): for every configuration "
+              "one cycle is a total function of the field (never stuck, frames balanced, source untouched) and, "
+              "under the contracts proved per kernel in C02-C04 (smoothers fix exact solutions; restriction, "
+              "prolongation, residual map zero to zero), one cycle -- and any number of cycles with changing "
+              "directions -- returns an exact solution of the fine-grid system unchanged.")
 LEVEL_NOTE = ("Trusted: Coq kernel; the ast extraction of the helpers (py2coq/solver_helpers.py, fail-closed); "
               "Model/Hierarchy.v is a hand model of multigrid()'s loop/recursion and of MGParameters' pattern "
               "parsing, tied to the code by trace correspondence (wrapping emg3d.solver.multigrid/smoothing/"
               "restriction/prolongation and the core kernels) and by table comparison with MGParameters. "
-              "The numerical kernels are not part of this property.")
+              "Model/MGSem.v's reading of the events (which array is handed to which call: residual of the current "
+              "field to restriction, fresh zero coarse field, 'efield += P cefield') is compared call by call with the "
+              "real multigrid() (props/c05_flow.py), which also runs one real cycle on the exact discrete solution. "
+              "The cycle fixed-point theorem takes the kernel contracts as hypotheses; plugging the per-kernel "
+              "theorems of C02-C04 into them is by inspection (different carrier types per level).")
 TECHNIQUE = "Coq proof (induction, lia, finite reflection) over helpers regenerated from source + trace correspondence"
 PROPS = 'Props/C05.v'
 GEN = []
